@@ -150,7 +150,13 @@ where
     }
 
     fn fetch_n(&self, n: usize) -> Option<NextChunk<T, impl ExactSizeIterator<Item = T>>> {
-        self.progress_and_get_begin_idx(n).and_then(|begin_idx| {
+        // an empty chunk request yields nothing; in particular, it must not be mistaken for the end of the iteration
+        let begin_idx = match n {
+            0 => None,
+            _ => self.progress_and_get_begin_idx(n),
+        };
+
+        begin_idx.and_then(|begin_idx| {
             // SAFETY: no other thread has the valid condition to iterate, they are waiting
             let iter = unsafe { self.mut_iter() };
             let end_idx = begin_idx + n;
